@@ -623,8 +623,11 @@ def _shapes_c04_6(tier):
         add("tls12-ecdhe-gcm", "c", 8, 320, 2, 16)
         add("tls12-ecdhe-gcm", "s", 32, 1280, 4, 64)
         add("tls12-rsa-cbc", "c", 32, 480, 4, 64)
-        add("tls12-rsa-cbc", "s", 0, 1120, 4, 64)
-        add("tls10-dhe-cbc", "c", 0, 480, 2, 32)
+        # not swept: the server stream of the RSA/CBC flow (windows inside
+        # the plaintext certificate re-run the X.509 parser for every value)
+        # and the TLS 1.0 DHE client stream (256-byte DH value): each window
+        # exceeded the 15-minute job budget; C08.5 covers the certificate
+        # parser, C10.4 the DH share checks
     return out
 
 
